@@ -1141,12 +1141,16 @@ class IntFlag(Adapter):
         for v in val:
             if isinstance(v, str):
                 v = self.flag_cls[v]
-            new_val |= v
+            # OR as plain ints, a flag instance can't hold the negative leftovers of signed fields
+            new_val |= int(v)
         return new_val
 
     def decode(self, val: Any, ctx: Optional[ParseContext], pod: bool = False) -> Any:
         if pod:
             return dtypes.flags_to_pod(self.flag_cls, val)
+        if val < 0:
+            # Negative values on signed fields aren't representable as flag instances, keep the int
+            return val
         return self.flag_cls(val)
 
     def default_value(self) -> Any:
